@@ -601,7 +601,7 @@ def _describe_object_shape(
         links_props=link_props,
         links=links,
         has_implicit_fields=implicit_id,
-        sources=[src.id for src in sources],
+        sources=[_get_object_type_id(src, ctx=ctx) for src in sources],
     )
 
     if type_id in ctx.uuid_to_pos:
@@ -669,6 +669,45 @@ def _describe_object_shape(
     return _finish_typedesc(type_id, buf, ctx=ctx)
 
 
+def _get_compound_components(
+    t: s_objtypes.ObjectType,
+    *,
+    ctx: Context,
+) -> tuple[s_objtypes.ObjectType, ...]:
+    components = (
+        t.get_union_of(ctx.schema).objects(ctx.schema)
+        or t.get_intersection_of(ctx.schema).objects(ctx.schema)
+    )
+    mat_components: list[s_objtypes.ObjectType] = []
+    for c in components:
+        ctx.schema, mc = c.material_type(ctx.schema)
+        if mc not in mat_components:
+            mat_components.append(mc)
+    mat_components.sort(key=lambda c: c.id)
+    return tuple(mat_components)
+
+
+def _get_object_type_id(
+    t: s_objtypes.ObjectType,
+    *,
+    ctx: Context,
+) -> uuid.UUID:
+    """The id under which an object type is described."""
+    if not t.is_compound_type(ctx.schema):
+        return t.id
+    components = _get_compound_components(t, ctx=ctx)
+    if len(components) == 1:
+        return components[0].id
+    op = (
+        CompoundOp.UNION if t.get_union_of(ctx.schema)
+        else CompoundOp.INTERSECTION
+    )
+    return uuidgen.uuid5(
+        s_obj.TYPE_ID_NAMESPACE,
+        f'compound\x00{int(op)}\x00{":".join(str(c.id) for c in components)}',
+    )
+
+
 def _describe_object_type(
     t: s_objtypes.ObjectType,
     *,
@@ -724,11 +763,6 @@ def _describe_compound_object_type(
         )
 
     buf = []
-    type_id = t.id
-
-    if type_id in ctx.uuid_to_pos:
-        # already described
-        return type_id
 
     components = t.get_union_of(ctx.schema).objects(ctx.schema)
     if components:
@@ -740,12 +774,32 @@ def _describe_compound_object_type(
                 f"{t.get_name(ctx.schema)} is not a compound type")
         op = CompoundOp.INTERSECTION
 
+    # Compound types are created on the fly by the query compiler, get a
+    # random id every time, and their components may be views.  Describe
+    # the material component types, and derive the id and the name of the
+    # compound from them, so that the descriptor of a query does not
+    # change from one compilation to the next.
+    components = _get_compound_components(t, ctx=ctx)
+    if len(components) == 1:
+        return _describe_object_type(components[0], ctx=ctx)
+
+    component_names = [c.get_name(ctx.schema) for c in components]
+    if op is CompoundOp.UNION:
+        name = s_types.get_union_type_name(component_names)
+    else:
+        name = s_types.get_intersection_type_name(component_names)
+    type_id = _get_object_type_id(t, ctx=ctx)
+
+    if type_id in ctx.uuid_to_pos:
+        # already described
+        return type_id
+
     # .tag
     buf.append(DescriptorTag.COMPOUND._value_)
     # .id
     buf.append(type_id.bytes)
     # .name
-    buf.append(_name_packer(t.get_name(ctx.schema)))
+    buf.append(_name_packer(name))
     # .schema_defined
     buf.append(_bool_packer(False))
     # .op
